@@ -47,6 +47,20 @@ class FitDist(Opaque):
         return c
 
 
+class FitDistClass(Opaque):
+    """the template's class as stored by the constructor (distribution_class): calling it builds a NEW distribution
+    from scratch (default / start parameters lost) - recorded, because fit must copy the template instead"""
+    type_name = "type"
+
+    def __init__(self):
+        self.constructed = []
+
+    def call(self, itp, args, kwargs):
+        d = FitDist(f"constructed{len(self.constructed)}")
+        self.constructed.append(d)
+        return d
+
+
 FD_CASES = [dict(kind=k) for k in ("none", "ok", "wrong_length", "entry_none", "no_method", "no_weights")]
 
 
@@ -250,7 +264,7 @@ class SplitInIntervals(Contract):
         cx.oblige("frame.data", self.data.buf.writes == 0, "frame")
 
 
-@contract(CD + ".fit", ["C09", "C19"], [dict(m=m, deps=dp) for m in (1, 3) for dp in (("alpha",), ("alpha", "beta"))], name="cond.fit")
+@contract(CD + ".fit", ["C09", "C19", "C12"], [dict(m=m, deps=dp) for m in (1, 3) for dp in (("alpha",), ("alpha", "beta"))], name="cond.fit")
 class CondFit(Contract):
     """every interval is fitted by a stand-alone fit of a COPY of the template to exactly that interval's data with
     the given method / weights; the template itself is never fitted; every dependence function is fitted to the
@@ -271,7 +285,8 @@ class CondFit(Contract):
                     return None
                 raise PyRaise("AttributeError", name)
         self.deps = {p: DepRec(p) for p in case["deps"]}
-        self.obj = SObj(CD, {"distribution": self.tmpl, "param_names": ["alpha", "beta"], "conditional_parameters": dict(self.deps),
+        self.tmpl_class = FitDistClass()
+        self.obj = SObj(CD, {"distribution": self.tmpl, "distribution_class": self.tmpl_class, "param_names": ["alpha", "beta"], "conditional_parameters": dict(self.deps),
                              "fixed_parameters": {}, "conditioning_values": None}, owner="arg")
         m = case["m"]
         self.data = [sym_array(cx, f"interval{j}", (cx.sym(f"n{j}", "int"),)) for j in range(m)]
@@ -287,6 +302,8 @@ class CondFit(Contract):
             return
         cx.oblige("post.template_untouched", not self.tmpl.fits, "post", "the template's own parameters are not fitted")
         copies = self.tmpl.copies
+        cx.oblige("post.copies_not_fresh_instances", not self.tmpl_class.constructed, "post",
+                  "per-interval distributions are copies of the template (its start values and fixed parameters), not new instances of its class")
         cx.oblige("post.one_copy_per_interval", len(copies) == m, "post")
         if len(copies) != m:
             return
